@@ -122,7 +122,11 @@ func (e *metaEnv) contentBytes(c string) []byte {
 		if strings.HasPrefix(c, "bulk") {
 			return []byte(c)
 		}
-		return gen(uint64(len(c))+100, 5)
+		var h uint64 = 1469598103934665603
+		for i := 0; i < len(c); i++ {
+			h = (h ^ uint64(c[i])) * 1099511628211
+		}
+		return gen(h|1<<40, 9)
 	}
 }
 
